@@ -9,6 +9,7 @@ from .origin import Origins, show, walk
 from .util import Vars, reaches_without
 from . import p_c01
 
+TECHNIQUE = 'static analysis: ownership/API rule of the history vector; freshness (no use of a view across a push/pop); must-pass-through and cut queries for breakpoints and flushes; event-language equality of the capturing writer; panic-site audit over everything reachable from debug::run'
 LEVEL = "other"
 EXPLANATION = (
     "Ownership and pairing rules of the debugger decided on all CFG paths of debug::run: (SNAPSHOT) every step "
